@@ -409,7 +409,8 @@ def stepConn (w : World) (c : Conn) (ws : List String) : Option (World × String
   | ["cn_reset", k, code] =>
     match getSlot w k, code.toNat? with
     | some (_, slot), some code =>
-      if !slot.send then some (finish w c "nohandle")
+      if code > U32_MAX then none
+      else if !slot.send then some (finish w c "nohandle")
       else some (finish w (withStreams c (c.streams.refSendReset slot.key code)) "ok")
     | _, _ => none
   | ["cn_pollreset", k] =>
@@ -523,12 +524,19 @@ def stepConn (w : World) (c : Conn) (ws : List String) : Option (World × String
     | none => none
   | ["cn_target", n] =>
     match n.toNat? with
-    | some n => some (finish w (if w.connGone then c else c.setTargetWindowSize n) "ok")
+    | some n =>
+      if n > U32_MAX then none                       -- the harness parses a `u32`
+      else if w.connGone then some (finish w c "ok")
+      else if n > Generated.Consts.MAX_WINDOW_SIZE then some (finish w (c.panic "assertion failed: size <= proto::MAX_WINDOW_SIZE") "ok")
+      else some (finish w (c.setTargetWindowSize n) "ok")
     | none => none
   | ["cn_iws", n] =>
     match n.toNat? with
     | some n =>
-      if w.connGone then some (finish w c "ok") else
+      if n > U32_MAX then none
+      else if w.connGone then some (finish w c "ok")
+      else if n > Generated.Consts.MAX_WINDOW_SIZE then some (finish w (c.panic "assertion failed: size <= proto::MAX_WINDOW_SIZE") "ok")
+      else
       match c.setInitialWindowSize n with
       | (c, .ok _) => some (finish w c "ok")
       | (c, .error e) => some (finish w c ("err:" ++ renderApiErr (.user e)))
